@@ -56,13 +56,36 @@ theorem template_update_rejected_changes_none (env : Env) (fail : List String) (
 
 /-! ### Starting tasks -/
 
-/-- **Its start succeeded** = the oracle: `startTask` answers `startOK`, stores nothing visible, and changes the
-executing flag of that task only — to true exactly when the start succeeds. -/
+/-- **Its start succeeded** = the oracle, three-way: `startTask` answers `startOK` (the task builds, TaskMaster.StartTask
+accepts it AND — batch tasks — StartBatching succeeds), stores nothing visible, and changes the executing flag of that
+task only: to true exactly when the start succeeds, to FALSE when StartBatching was refused (`batchRefused`: the task
+was in TaskMaster.tasks for a moment and is stopped again), and not at all when the start itself was refused. -/
 theorem start_outcome_is_oracle (env : Env) (fail : List String) (w : World) (id : String) (t : Task) :
     (startTask env fail w id t).2 = startOK env fail id t ∧
     (startTask env fail w id t).1.store = w.store ∧
-    (startTask env fail w id t).1.exec = fun j => if j = id then (startOK env fail id t || w.exec j) else w.exec j :=
-  ⟨startTask_ok env fail w id t, startTask_store env fail w id t, startTask_exec env fail w id t⟩
+    (startTask env fail w id t).1.exec =
+      (fun j => if j = id then (startOK env fail id t || (w.exec j && !batchRefused env fail id t)) else w.exec j) ∧
+    (batchRefused env fail id t = true → startOK env fail id t = false) :=
+  ⟨startTask_ok env fail w id t, startTask_store env fail w id t, startTask_exec env fail w id t, batchRefused_not_ok⟩
+
+/-- **A batch task whose StartBatching is refused is not executing afterwards** — whatever the TaskMaster held under
+that ID before — and the attempt is reported as failed (the caller answers 500 / logs it). The refusal is
+deterministic: a query of the script reads a db.rp that is not among the task's dbrps. -/
+theorem batching_refused_is_not_executing (env : Env) (fail : List String) (w : World) (id : String) (t : Task)
+    (h : batchRefused env fail id t = true) :
+    (startTask env fail w id t).2 = false ∧ (startTask env fail w id t).1.exec id = false ∧
+    (∀ j, j ≠ id → (startTask env fail w id t).1.exec j = w.exec j) := by
+  refine ⟨by rw [startTask_ok]; exact batchRefused_not_ok h, ?_, fun j hj => ?_⟩
+  · rw [startTask_exec]; simp [h, batchRefused_not_ok h]
+  · rw [startTask_exec]; simp [hj]
+
+/-- Non-vacuity + the three outcomes on the pool's batch scripts (`b1` reads odb.orp): ok / start refused / batching
+refused; with the right dbrps `b1` starts. -/
+example : startOK demoEnv [] "a" ⟨"b0", "v0", "", ["db.rp"], true⟩ = true ∧
+    startOK demoEnv ["a"] "a" ⟨"b0", "v0", "", ["db.rp"], true⟩ = false ∧
+    batchRefused demoEnv ["a"] "a" ⟨"b0", "v0", "", ["db.rp"], true⟩ = false ∧
+    batchRefused demoEnv [] "a" ⟨"b1", "v0", "", ["db.rp"], true⟩ = true ∧
+    startOK demoEnv [] "a" ⟨"b1", "v0", "", ["odb.orp"], true⟩ = true := by decide
 
 /-! ### Restart -/
 
@@ -471,7 +494,8 @@ k = 1: nothing changes, 500. k ≠ 1: the executing set is EXACTLY the one the f
 is stored, the old ID of a rename disappears unless k = 2 (then both IDs stay stored — the old one stopped), templates
 are untouched, and the answer is the fault-free one or 500. -/
 theorem update_under_fault (env : Env) (fail : List String) (w : World) (id newId : String) (orig upd : Task)
-    (k : Nat) (h0 : w.ntx = 0) (ho : w.store.tasks id = some orig) (hfree : id ≠ newId → w.store.tasks newId = none) :
+    (k : Nat) (h0 : w.ntx = 0) (ho : w.store.tasks id = some orig) (hfree : id ≠ newId → w.store.tasks newId = none)
+    (hinv : ExecInv w) :
     (k = 1 → (updateCommitF env fail ⟨w, some k, false⟩ id newId orig upd upd.tmpl).1.w.view = w.view ∧
              (updateCommitF env fail ⟨w, some k, false⟩ id newId orig upd upd.tmpl).2 = .fail) ∧
     (k ≠ 1 →
@@ -483,13 +507,21 @@ theorem update_under_fault (env : Env) (fail : List String) (w : World) (id newI
       ((updateCommitF env fail ⟨w, some k, false⟩ id newId orig upd upd.tmpl).2 = .fail ∨
        (updateCommitF env fail ⟨w, some k, false⟩ id newId orig upd upd.tmpl).2 =
         (updateCommit Variant.fixed env fail w id newId orig upd (needsReassoc Variant.fixed id newId orig upd.tmpl)).2)) := by
-  obtain ⟨hA, hB⟩ := updateCommitF_fault env fail w id newId orig upd upd.tmpl k h0 ho hfree
+  have hidle : upd.enabled = true → (orig.enabled = false ∨ id ≠ newId) → w.exec newId = false := by
+    intro _ hor
+    by_cases hid : id = newId
+    · subst hid
+      rcases hor with hoe | hne
+      · exact View.EI.not_exec_disabled hinv (t := orig) ho hoe
+      · exact absurd rfl hne
+    · exact View.EI.not_exec hinv (hfree hid)
+  obtain ⟨hA, hB⟩ := updateCommitF_fault env fail w id newId orig upd upd.tmpl k h0 ho hfree hidle
   have hsd : (storeDefinition w id newId upd).2 = true := by
     rw [storeDefinition_ok w id newId upd orig ho]
     split
     · rename_i hne; rw [hfree hne]; rfl
     · rfl
-  obtain ⟨c1, c2⟩ := updateCommit_closed env fail w id newId orig upd ho hsd
+  obtain ⟨c1, c2⟩ := updateCommit_closed env fail w id newId orig upd ho hsd hidle
   refine ⟨hA, fun h1 => ?_⟩
   obtain ⟨e1, e2, e3, e4⟩ := hB h1
   have c2e := congrArg View.exec c2
